@@ -594,6 +594,9 @@ pub fn units() -> Vec<Unit> {
             Alias("super::Configuration", "Configuration"),
             Alias("Configuration", "RegionCfg"),
             Fn("Otaa::handle_rx"),
+            // builder C: the answer of a join whose windows passed without a JoinAccept
+            EnumData("Response"),
+            Fn("Otaa::rx2_complete"),
         ],
     },
     // C12 / C06: `Session::prepare_buffer` — the header of the uplink.  Abstract: frame encryption and MIC
